@@ -7,7 +7,8 @@ tie     translator (Gen/Regimes.v = what the code registers now) + exhaustive co
         random dates}, through RateDef.Value, tax.TotalCalculator (Combo.prepareRate) and a calculated
         bill.Invoice (issue_date and value_date); synthetic tables (tags, extensions, invalid dates).
 P       (python, from the published data/regimes/*.json, independent of the model) Go's percentage and
-        surcharge are those of the applicable value with the latest start date on or before the date.
+        surcharge are those of the applicable value with the latest start date on or before the date, of the
+        rate whose key is the combo's key or the FIRST `+` component of it (no such rate: invalid-rate).
 """
 import datetime
 import glob
@@ -116,9 +117,11 @@ def find_rate(cat, key):
     for r in cat.get("rates", []):
         if r["key"] == key:
             return r
-    parts = key.split("+")
+    # an extended key (`exempt+reverse-charge`) belongs to the rate named by its FIRST component; a rate named
+    # in a later component (`bogus+standard`) does not make the key a rate of the category
+    first = key.split("+", 1)[0]
     for r in cat.get("rates", []):
-        if r["key"] in parts:
+        if r["key"] == first:
             return r
     return None
 
@@ -234,9 +237,13 @@ def gen_table_cases(c, regs, quick):
                             for kind in (0, 3, 5):
                                 cases.append(dict(stream="tables-decoys", op="invoice", kind=kind, cc=cc, cat=cat["code"], key=rt["key"],
                                                   d=d, tags=tags, ext=ext, boundary=d in starts, decoys=others))
-                # composite key (Key.Has path) and unknown keys, one boundary date each
+                # extended keys (Key.HasPrefix path: defined first component + free suffix), keys whose first
+                # component is NOT a rate (undefined word first, another rate's suffix first) and unknown keys,
+                # one boundary date each
                 d0 = starts[-1] if starts else (2020, 1, 1)
-                for key in (rt["key"] + "+zz-extra", "zz-extra+" + rt["key"]):
+                tail = rt["key"].split("+")[-1]
+                for key in (rt["key"] + "+zz-extra", "zz-extra+" + rt["key"], "bogus+" + rt["key"] + "+x",
+                            tail + "+" + rt["key"] if "+" in rt["key"] else rt["key"] + "+zz-a+zz-b"):
                     for op, kind in (("lookup", None), ("prepare", None), ("invoice", 1)):
                         cases.append(dict(stream="keys", op=op, kind=kind, cc=cc, cat=cat["code"], key=key, d=d0, tags=(), ext={}, boundary=bool(starts)))
             for op, kind in (("lookup", None), ("prepare", None), ("invoice", 0)):
@@ -470,6 +477,9 @@ def run(c):
         is_known = (x["boundary"] and cg == c0 and strict_ok and not p_ok)
         what = "%s: implementation gives %s, the table value in force is %s" % (
             describe(x), show(og), " or ".join(sorted(show(e) for e in exp)) if isinstance(exp, set) else show(exp))
+        if exp in (("err", "norate"), ("err", "invalid-rate")) and not p_ok:
+            what = "%s: implementation gives %s, but neither `%s` nor its first component `%s` is a rate of %s %s in the published table" % (
+                describe(x), show(og), x["key"], x["key"].split("+", 1)[0], x["cc"], x["cat"])
         if cg != c1 and p_ok:
             what = "%s: implementation `%s` differs from the model `%s` (published table agrees with the implementation)" % (describe(x), g, a)
         gl = line_of(x, 1, for_go=True)
@@ -529,7 +539,9 @@ def run(c):
     c.cov["rule"] = ("exhaustive: every registered regime x category x rate key x qualifier context (none, each tag / extension "
                      "filter of the table, a foreign code, an unknown tag) x dates {start-1, start, start+1 for every start date of "
                      "the table, 5 fixed dates incl. a leap day, random dates} x {RateDef.Value, TotalCalculator, invoice by "
-                     "issue_date, invoice by value_date}; plus composite/unknown rate keys and unknown categories; plus random "
+                     "issue_date, invoice by value_date}; plus extended rate keys (defined first component + suffixes), keys whose "
+                     "first component is not a rate of the category (`zz-extra+standard`, `bogus+standard+x`, `eqs+standard+eqs`), "
+                     "unknown rate keys and unknown categories; plus random "
                      "synthetic tables (tags, extension filters, absent and invalid start dates), the validator's order test and "
                      "date validity/order on random triples. distinct non-trivial = distinct case lines whose date IS a start "
                      "date of the table (table streams) or distinct lines (synthetic streams)")
